@@ -184,6 +184,20 @@ except Exception as e:  # noqa
     miss.append(f'extract_facade: {e}')
     fs = None
 
+try:
+    import extract_critpath
+    try:
+        cps = extract_critpath.extract(open(os.path.join(src, 'alg', 'critical_path.py')).read(),
+                                       open(os.path.join(src, 'wbs.py')).read())
+        ok.append('critpath_src')
+    except Exception as e:  # noqa
+        cps = extract_critpath.PINNED
+        miss.append(f'critpath_src: {e}')
+    vals['critpath_src'] = cps
+except Exception as e:  # noqa
+    miss.append(f'extract_critpath: {e}')
+    cps = None
+
 
 def write_if_changed(path, content):
     os.makedirs(os.path.dirname(path), exist_ok=True)
@@ -226,6 +240,8 @@ if ws is not None:
     write_if_changed(os.path.join(lean, 'PjVerif', 'Extracted', 'WbsSrc.lean'), extract_wbs.to_lean(ws))
 if fs is not None:
     write_if_changed(os.path.join(lean, 'PjVerif', 'Extracted', 'FacadeSrc.lean'), extract_facade.to_lean(fs))
+if cps is not None:
+    write_if_changed(os.path.join(lean, 'PjVerif', 'Extracted', 'CritPathSrc.lean'), extract_critpath.to_lean(cps))
 os.makedirs(os.path.join(verif, 'out'), exist_ok=True)
 write_if_changed(os.path.join(verif, 'out', 'extracted.json'), json.dumps(vals, indent=1))
 print(json.dumps({'ok': ok, 'miss': miss}))
